@@ -395,7 +395,7 @@ func (c *Check) parseSites(prefix string, rec map[string]map[string]*Builder, in
 			// the bounds may contain bytes.Index/len over inner slices: those are intermediates
 			return
 		}
-		if t.Op == "len" || t.Op == "bytes.Index" {
+		if t.Op == "len" || t.Op == "bytes.Index" || t.Op == "bytes.SplitN" || t.Op == "bytes.Cut" {
 			return
 		}
 		for _, a := range t.A {
@@ -407,7 +407,7 @@ func (c *Check) parseSites(prefix string, rec map[string]map[string]*Builder, in
 			for _, ev := range pa.Events {
 				switch ev.Kind {
 				case EvCall:
-					if ev.CI.name == "bytes.Index" || ev.CI.name == "len" {
+					if ev.CI.name == "bytes.Index" || ev.CI.name == "len" || ev.CI.name == "bytes.SplitN" || ev.CI.name == "bytes.Cut" {
 						continue
 					}
 					for _, a := range ev.CI.args {
@@ -435,7 +435,7 @@ func (c *Check) parseSites(prefix string, rec map[string]map[string]*Builder, in
 								for _, qe := range qa.Events {
 									switch qe.Kind {
 									case EvCall:
-										if qe.CI.name == "bytes.Index" || qe.CI.name == "len" {
+										if qe.CI.name == "bytes.Index" || qe.CI.name == "len" || qe.CI.name == "bytes.SplitN" || qe.CI.name == "bytes.Cut" {
 											continue
 										}
 										for _, a := range qe.CI.args {
@@ -643,6 +643,7 @@ func ruleC18(c *Check) {
 	c.idLengthChecks()
 	c.ownerIsSigner("C18")
 	c.recordKeysFromMessage("C18.9")
+	c.clientRecovery("C18.10")
 }
 
 // recordKeysFromMessage: a definition / binding record is stored under the key built from the very name (and
